@@ -118,9 +118,18 @@ def slug(s):
     return re.sub(r"[^A-Za-z0-9_.-]+", "_", s)[:80]
 
 
+def out_root():
+    """Evidence and replays of a trial against another tree (sensitivity mutants) never touch the real ones."""
+    if os.path.realpath(overlay.repo_root()) == "/repo":
+        return ROOT
+    d = os.path.join(ROOT, ".run", "trial")
+    os.makedirs(d, exist_ok=True)
+    return d
+
+
 def write_replay(prop, stage, v, extra=None):
     import hashlib
-    d = os.path.join(ROOT, "replays", prop)
+    d = os.path.join(out_root(), "replays", prop)
     os.makedirs(d, exist_ok=True)
     body = {"property": prop, "stage": stage, "bucket": v["bucket"], "message": v.get("message", ""),
             "case": v["case"]}
@@ -360,8 +369,8 @@ def _main(prop, tier, seed, replay_file, scratch, t0):
         "wall_s": round(time.time() - t0, 2),
         "violations": len(best),
     }
-    os.makedirs(os.path.join(ROOT, "evidence"), exist_ok=True)
-    evp = os.path.join(ROOT, "evidence", prop + ".json")
+    os.makedirs(os.path.join(out_root(), "evidence"), exist_ok=True)
+    evp = os.path.join(out_root(), "evidence", prop + ".json")
     with open(evp + ".tmp", "w") as f:
         json.dump(ev, f, indent=1, default=repr)
     os.replace(evp + ".tmp", evp)
